@@ -11,8 +11,8 @@ TB = ('Coq 8.16.1 kernel; no axioms (Print Assumptions: Closed under the global 
       'generators, comparison glue (python) and the driver are trusted')
 
 CHECKS = {
- 'C01': dict(technique='Coq proof of a certificate-checking Earley recogniser (recognize_correct: Some b -> (b=true <-> sentence)) + differential run of the implementation against the extracted decider over generated grammars x inputs x 24 configurations',
-             text='Theorems: Item <-> valid (declarative Earley items are exactly the valid items of the consumed prefix) and exactness of the extracted recogniser, for all grammars and inputs (induction on derivations, no bound). The implementation is tied by correspondence: its verdict (rc, root, number of syntax_error calls) must equal what the verified decider prescribes, in every lookahead/one-parse/cost/recovery setting.',
+ 'C01': dict(technique='Coq proof of a certificate-checking Earley recogniser (recognize_correct: Some b -> (b=true <-> sentence)) and of lookahead pruning (filtered items accept exactly the sentences) + differential run of the implementation against the extracted decider over generated grammars x inputs x 24 configurations',
+             text='Theorems: Item <-> valid (declarative Earley items are exactly the valid items of the consumed prefix) and exactness of the extracted recogniser, for all grammars and inputs (induction on derivations, no bound); C01_verdict_under_lookahead: an item system filtered by one token of lookahead on scan/complete accepts exactly the sentences for every filter that keeps the items lying on a derivation of the input (Lookahead.v). The implementation is tied by correspondence: its verdict (rc, root, number of syntax_error calls) must equal what the verified decider prescribes, in every lookahead/one-parse/cost/recovery setting.',
              design='6 C01'),
  'C02': dict(technique='Coq proof that the table-based enumerator of translations is exact (pre-fixpoint certificate, no height bound) and that DAG denotation is exact; the single tree of the implementation must be a member',
              text='Theorems: all_translations_spec (In t L <-> translation g w t for derivations of every height) and denote_spec. Correspondence: with one parse requested the returned tree (serialised from the real yaep_tree_node graph) has no ALT, is a member of the verified set of translations (codes and attribute=position of every TERM included), NIL/ERROR in one exemplar, child arrays NULL-terminated inside their block.',
@@ -27,43 +27,43 @@ CHECKS = {
              text='Theorem: all_translations_spec. Correspondence: flag set => at least two derivation trees; two different translations => flag set; both one_parse values, all lookahead levels and cost settings.',
              design='6 C05'),
  'C06': dict(technique='Coq proof of shift_count (how many leading tokens can be shifted, in terms of declarative Earley items = valid items of the prefix, independent of lookahead) + differential run: first syntax_error token and all callback arguments',
-             text='Theorems: C06_first_unshiftable_token (every token before k has an item of its prefix, token k has none; acceptance iff sentence) and Item <-> valid. Correspondence: first reported error token and its attribute equal the decider\'s for strict (reduced) grammars at all lookahead levels; recovery-off arguments (-1, NULL, -1, NULL); recovery-on ranges, attributes and strictly increasing error tokens. Partial: "an item of the prefix exists iff some sentence starts with it" (reduced grammars) is not yet proved in Coq.',
+             text='Theorems: C06_first_unshiftable_token (every token before k has an item of its prefix, token k has none; acceptance iff sentence) and Item <-> valid. Correspondence: first reported error token and its attribute equal the decider\'s for strict (reduced) grammars at all lookahead levels; recovery-off arguments (-1, NULL, -1, NULL); recovery-on ranges, attributes and strictly increasing error tokens. C06_viable_prefix / C06_first_offending_token: in a grammar whose nonterminals are productive an item of the prefix exists iff some sentence starts with it, so the decider\'s count is the property\'s first offending token; C06_error_token_under_lookahead: the same token for every lookahead filter that keeps useful items and every family of sets between filtered and unfiltered items.',
              design='6 C06'),
  'C07': dict(technique='Coq-verified enumerators (translations of a token sequence with explicit attributes over the grammar with `error\' as terminal; DAG denotation; sentence decider) + search over repairs of the reported size',
              text='Theorems: C07_translations_of_a_repair, C07_denotation_exact, C07_sentence_decider. Correspondence: rc 0 and a non-NULL well-formed tree for every input with recovery on; callbacks iff non-sentence; some repair (disjoint segments replaced by `error\', total length = tokens reported ignored) has the returned tree among its translations; the uniqueness clause for single-segment repairs.',
              design='6 C07'),
  'C08': dict(technique='Coq proof of shift_count used on prefix_b ++ [error] ++ rest for every (b, f) + comparison with the first callback',
-             text='Theorem: C08_shiftable_decider. Correspondence: for every non-sentence, every back position b and forward skip f such that `error\' and the next recovery_match tokens (or all remaining ones up to acceptance) can be shifted, the first callback ignores at most (e-b)+f tokens; recovery_match 1..5, lookahead 0..2; nested-error family for several back-frontier advances.',
+             text='Theorems: C08_shiftable_decider, C08_shiftable_means_viable. Correspondence: for every non-sentence, every back position b and forward skip f such that `error\' and the next recovery_match tokens (or all remaining ones up to acceptance) can be shifted, the first callback ignores at most (e-b)+f tokens; recovery_match 1..5, lookahead 0..2; nested-error family for several back-frontier advances.',
              design='6 C08'),
- 'C09': dict(technique='Coq lemmas on facts regenerated from yaep.c (clamp expression = max 0 (min 2 l); cache distance threshold <= 1) + the la-free specifications of C01-C05; differential run of the implementation against itself across lookahead x debug levels with the guarded goto-cache self-check',
-             text='Theorems: C09_level_clamped and C09_cache_threshold are proved about expressions re-extracted from the source on every run (an edit of the clamp or of the threshold breaks the obligation); C09_verdict_determined: the prescribed verdict is a function of grammar and input only. Correspondence: all observables identical for la in {-3,0,1,2,7} x debug levels, and every goto-cache hit recomputed and compared (hook H1).',
+ 'C09': dict(technique='Coq theorems: lookahead pruning keeps verdict and error token (Lookahead.v; the level-1 FIRST/FOLLOW filter is an instance), re-use of a cached successor set is sound in the model of build_new_set under the threshold regenerated from yaep.c (CacheModel.v), clamp expression = max 0 (min 2 l); differential run of the implementation against itself across lookahead x debug levels with the guarded goto-cache self-check',
+             text='Theorems: C09_level_clamped and C09_cache_threshold are proved about expressions re-extracted from the source on every run (an edit of the clamp or of the threshold breaks the obligation); C09_verdict_determined: the prescribed verdict is a function of grammar and input only; C09_verdict_under_lookahead, C09_static_filter_keeps_useful_items, C09_useful_items_survive (pruning by lookahead cannot change the verdict); C09_cache_reuse_is_sound (when the validity test of the cache succeeds and the parse list below the place of caching is unchanged a fresh computation returns the cached start situations). Correspondence: all observables identical for la in {-3,0,1,2,7} x debug levels, and every goto-cache hit recomputed and compared (hook H1).',
              design='6 C09'),
  'C16': dict(technique='Coq lemmas that the behaviour-deciding container expressions regenerated from hashtab.c and hashtab.cpp are equal + the C19 refinement theorems for the shared container model; differential run of identical scripts through libyaep and class yaep',
              text='Theorems: C16_same_expansion_test / C16_same_probe_step / C16_same_new_size (about expressions re-extracted from both sources on every run). Correspondence: parse stream in random configurations and allocation modes, API histories, long inputs, large ambiguous inputs and 600 wide grammars (tables expand, probe collisions) through the C and the C++ driver; every observable of every call compared. Partial: identity of two binaries is differential testing.',
              design='6 C16'),
- 'C19': dict(technique='Coq refinement proofs for the object stack (finished objects never move or change; top object = bytes appended; writes inside the segment) and the VLO (contents = appended minus shortened; length <= allocation), an executable faithful hash table model using the expressions regenerated from the sources; differential run of random operation sequences on the real C and C++ containers against the extracted models',
-             text='Theorems: C19_objstack (all operation sequences, by induction, via the invariant oinv and the abstraction oabs), C19_objstack_in_bounds, C19_vlo. The hash table model (probe sequence, reservation, re-use of deleted slots, expansion; expressions from Generated.v) is tied by correspondence on 750 sequences per run with colliding hash functions; its refinement proof is in progress (HashTabProofs.v).',
+ 'C19': dict(technique='Coq refinement proofs for the object stack (finished objects never move or change; top object = bytes appended; writes inside the segment) and the VLO (contents = appended minus shortened; length <= allocation), refinement proof of the hash table model (expressions regenerated from the sources) to a finite set incl. termination of the probe loop; differential run of random operation sequences on the real C and C++ containers against the extracted models',
+             text='Theorems: C19_objstack (all operation sequences, by induction, via the invariant oinv and the abstraction oabs), C19_objstack_in_bounds, C19_vlo. C19_hashtab / C19_hashtab_step (any operation sequence on a created table observes what a finite set would: invariant = prime size, every element reachable from its first probe through non-empty slots, counters), C19_hashtab_total (the probe loop terminates: prime size, step strictly between 0 and the size, an unexpanded table has an empty slot), C19_hashtab_prime_size, C19_hashtab_cpp_same_model. All three models are tied by correspondence on 750 sequences per run each (colliding hash functions, unaligned segment lengths, byte-wise appends) through the C and the C++ containers.',
              design='6 C19'),
  'C10': dict(technique='Coq proof that the order-faithful model of yaep_read_grammar returns 0 iff no documented defect is present and that a nonzero code names a present defect (ok_iff_well_formed, code_names_defect); differential run of the implementation against the extracted deciders on grammars with injected defects',
-             text='Theorems: C10_ok_iff and C10_code_names_defect for all terminal lists, rule lists and strictness values (case analysis along the checks, induction over the lists). Correspondence: impl = 0 <-> well_formed_b; impl = c -> defect_b c; error code and message recorded; a following parse is refused after a failure. Partial: the fixpoint computations (productive, reachable, nullable, loops) are modelled as the C loops compute them; their equivalence with the semantic notions is future work.',
+             text='Theorems: C10_ok_iff and C10_code_names_defect for all terminal lists, rule lists and strictness values (case analysis along the checks, induction over the lists). Correspondence: impl = 0 <-> well_formed_b; impl = c -> defect_b c; error code and message recorded; a following parse is refused after a failure. C10_productive_flag_meaning / C10_nullable_flag_meaning: the flags computed by the repeated passes hold exactly for the nonterminals that have a derivation to terminals / to the empty string (the fixed number of passes reaches the fixpoint). Partial: reachability and loop flags are modelled as the C loops compute them; their semantic characterisation is future work.',
              design='6 C10'),
  'C11': dict(technique='executable Coq model of the description language (byte-level lexer following yylex, recursive-descent parser for the conflict-free LALR grammar of sgramm.y, duplicate elimination and implicit codes with the start value regenerated from sgramm.y) + differential run: yaep_parse_grammar on the text vs yaep_read_grammar of the same binary on the grammar the model denotes',
-             text='Theorem so far: C11_implicit_codes_start (facts re-extracted from set_sgrammar: first implicit code 256, counter not overwritten before use). The model itself is tied by correspondence on printed grammars in all lexical variations and on byte-level mutations: same return code as the callback-defined twin, same parse results on sampled inputs, code 3 with a line number inside the text for texts outside the syntax, code 7 for a terminal described with two codes. Partial: the round-trip theorem print/parse for the model is future work.',
+             text='Theorems: C11_implicit_codes_start (facts re-extracted from set_sgrammar: first implicit code 256, counter not overwritten before use), C11_codes_assigned and C11_implicit_codes_fresh (explicit codes kept; implicit codes not below the start value, free, strictly increasing in order of appearance, different from every other code), C11_duplicates_eliminated. The lexer/parser part of the model is tied by correspondence on printed grammars in all lexical variations and on byte-level mutations: same return code as the callback-defined twin, same parse results on sampled inputs, code 3 with a line number inside the text for texts outside the syntax, code 7 for a terminal described with two codes. Partial: the round-trip theorem print/parse for the model is future work.',
              design='6 C11'),
  'C12': dict(technique='Coq theorem that the error message fits its buffer for any text (formatting primitive and bound regenerated from yaep_error) + sanitizer-instrumented dedicated stream',
              text='Theorems: C12_message_fits, C12_source_uses_bounded_formatting (facts of the source), C12_unbounded_would_overflow (the refutation that applied to the pinned tree). Correspondence: arbitrary byte strings and mutated descriptions, 199-1000 character names at every message site, 63-300 terminals with sparse/dense codes, undeclared and huge token codes, arbitrary setting values, cyclic grammars with all parses - no sanitizer report, no timeout, only documented return codes, message length <= 200. Partial: memory safety of the C code is observed, not proved.',
              design='6 C12'),
- 'C13': dict(technique='verified acyclicity decider on the serialised DAG + event-log relations on the tracked allocator (ASan, LeakSanitizer)',
-             text='Theorem: C13_acyclic_paths_bounded. Correspondence on 1-3 parses per object with tracking parse_alloc/parse_free: every block freed during a parse was allocated by that parse and is freed once; every node and name of the result lies in a live block of that parse; trees walked after yaep_free_grammar; yaep_free_tree frees every block once, leaves no block of the parse, calls the terminal callback once per TERM node; default allocator under LeakSanitizer. Partial: the model of free_tree_reduce/sweep and its theorem are future work.',
+ 'C13': dict(technique='Coq theorem about the model of yaep_free_tree (every reachable node, name and TERM callback exactly once) whose extracted counts are compared with the free log of the implementation + verified acyclicity decider + event-log relations on the tracked allocator (ASan, LeakSanitizer)',
+             text='Theorems: C13_free_tree (free_tree_reduce + free_tree_sweep on any DAG: the nodes passed to parse_free are exactly the nodes reachable from the root, each once; one terminal callback per reachable TERM node; every name of a reachable abstract node once), C13_acyclic_paths_bounded. Correspondence on 1-3 parses per object with tracking parse_alloc/parse_free: every block freed during a parse was allocated by that parse and is freed once; every node and name of the result lies in a live block of that parse; trees walked after yaep_free_grammar; yaep_free_tree frees every block once, leaves no block of the parse, calls the terminal callback once per TERM node; default allocator under LeakSanitizer. the numbers of blocks and callbacks equal those of the extracted model on the returned DAG. Partial: ownership of blocks during yaep_parse (pruning, unused NIL/ERROR) is observed, not modelled.',
              design='6 C13'),
- 'C17': dict(technique='enumeration of every failing allocation request of the fault-free run for a corpus of scenarios (library built with counting/failing wrappers around allocate.c, no source hook)',
-             text='Correspondence: for create / define (callbacks, text, redefinition) / parse (several configurations, long inputs, big grammar) scenarios and every request k: the call returns NULL resp. YAEP_NO_MEMORY with error code 1, no sanitizer report, the object can be freed, a second object parses as before. Theorem: C17_no_memory_code only; partial - the unwinding protocol model is future work.',
+ 'C17': dict(technique='Coq theorem about the unwinding protocol of yaep_parse regenerated from the source (finite check of all raising points lifted to every raising point) + enumeration of every failing allocation request of the fault-free run for a corpus of scenarios (library built with counting/failing wrappers around allocate.c, no source hook)',
+             text='Correspondence: for create / define (callbacks, text, redefinition) / parse (several configurations, long inputs, big grammar) scenarios and every request k: the call returns NULL resp. YAEP_NO_MEMORY with error code 1, no sanitizer report, the object can be freed, a second object parses as before. Theorems: C17_parse_unwinding (whichever call of yaep_parse raises, the handler releases exactly the working storage acquired: nothing unacquired, nothing twice, nothing left), C17_parse_handler_preconditions (flags volatile, nothing allocating before setjmp), C17_protocol_check_is_exhaustive, C17_no_memory_code. Partial: yaep_create_grammar, the definition functions and the memory safety below the protocol level are covered by the enumeration only.',
              design='6 C17'),
  'C18': dict(technique='Coq lemmas about the hash table growth policy regenerated from hashtab.c/.cpp (geometric growth, room in an unexpanded table) + measurement of machine-independent counters on deterministic grammar families',
              text='Theorems: C18_expansion_geometric(_cpp), C18_new_size_doubles, C18_unexpanded_table_has_room (re-proved against the current source expressions on every run). Measurement: bytes requested, hash searches, collisions and unique set cores for 1k..32k (thorough 512k) tokens of list / expression / statement grammars at lookahead 0,1,2 inside linear envelopes and doubling ratios calibrated on the pinned tree. Partial: the envelopes are empirical.',
              design='6 C18'),
  'C14': dict(technique='Coq refinement theorem for the API object model (objects_independent: the results seen on one object are those of its own sub-history) + differential run of random multi-object histories against the extracted model and against fresh-object replays',
-             text='Theorems: C14_objects_independent, C14_error_state over all histories (induction on the call list). Correspondence: every setter / definition / error-code / parse call of a random history over 1-3 live objects returns what the model prescribes; every successful parse equals the same parse on a fresh object in a fresh process; no sanitizer report, no leak after everything is freed (LeakSanitizer), no double free in the tracked tree memory.',
+             text='Theorems: C14_objects_independent, C14_error_state over all histories (induction on the call list), C14_parse_leaves_no_working_storage (protocol of yaep_parse regenerated from the source: a refused or interrupted parse leaves no working storage acquired). Correspondence: every setter / definition / error-code / parse call of a random history over 1-3 live objects returns what the model prescribes; every successful parse equals the same parse on a fresh object in a fresh process; no sanitizer report, no leak after everything is freed (LeakSanitizer), no double free in the tracked tree memory.',
              design='6 C14'),
  'C15': dict(technique='Coq theorems about the setter/defaults/clamp facts regenerated from yaep.c and the object model (setter_contract, error_state_contract, parse codes) + differential run of histories against the extracted model',
              text='Theorems: C15_setters, C15_source_setters_return_previous, C15_source_stored_values, C15_new_object, C15_error_state, C15_parse_codes; the generated facts (setter shapes, stored expressions, defaults) are re-extracted on every run. Correspondence: returned old values, error codes/messages, INVALID_TOKEN/UNDEFINED/NO_MEMORY codes, any negative end-of-input value, undeclared codes between declared ones.',
